@@ -112,7 +112,17 @@ def r1(ck, prog, run):
                 found=f"wrapped: {[str(t[1]) for t in wraps]}; result {str(r_da)[:80]} backend={getattr(r_da, 'backend', None)}", nontrivial=True)
         if wraps and wraps[0][4]:
             declared_vs_reference(ck, prog, ga, where, nm, kw, sorted(wraps[0][4]))
-    for nm in ("fftfreq", "dct", "fftshift", "next_fast_len", "fft_", "FFT", "_FFT_FUNCS", "__wrapped__"):
+    # names outside the table, including every other public name of the installed scipy.fft (near misses such as hfft2 / ihfftn,
+    # which exist in scipy.fft and belong to a listed family, must still be refused)
+    others = ["fftfreq", "dct", "fftshift", "next_fast_len", "fft_", "FFT", "_FFT_FUNCS", "__wrapped__", "hfft2", "hfftn", "ihfft2", "ihfftn", "fft3", "rfft1", "fftnn", "nfft", "2fft", ""]
+    try:
+        import scipy.fft as _sf
+        others += sorted(n_ for n_ in dir(_sf) if not n_.startswith("_") and n_ not in others)
+    except Exception:
+        pass
+    for nm in others:
+        if nm in NAMES14:
+            continue
         ev = Evaluator(prog)
         try:
             ev.call(ga, [StrV(nm)], {})
